@@ -26,6 +26,7 @@ type c16env struct {
 	topA     uint64 // producer A went on to topA >= topX
 	baseDump string
 	extra    *nom.AccountBlock
+	poolX    []*nom.AccountBlock // what the producer's pool held when the follower was at its frontier
 	faults   int
 }
 
@@ -82,6 +83,20 @@ func (e *c16env) honest(name string, batch []*nom.DetailedMomentum, ex c16expect
 	c := e.c
 	n := e.h.W.CloneStopped(e.tmpl, "B-"+name)
 	defer e.h.W.Drop(n)
+	pooled := 0
+	if len(e.poolX) > 0 && c.Weighted("withPool", 1, 2) == 1 {
+		// the follower has heard of the blocks waiting in the producer's pool (they acknowledge its own branch)
+		if wb, err := sim.WireBlocks(e.poolX); err == nil {
+			for _, blk := range wb {
+				if n.Bridge.AddAccountBlocks([]*nom.AccountBlock{blk}) == nil {
+					pooled++
+				}
+			}
+		}
+		if pooled > 0 {
+			c.Class("follower-with-pooled-blocks")
+		}
+	}
 	idx, err, pan := e.deliver(n, batch)
 	c.Note("%s: honest batch of %d (%d..%d) -> idx=%d err=%v panic=%v [%s]", name, len(batch), batch[0].Momentum.Height,
 		batch[len(batch)-1].Momentum.Height, idx, err, pan, ex.describe)
@@ -105,6 +120,15 @@ func (e *c16env) honest(name string, batch []*nom.DetailedMomentum, ex c16expect
 			c.Failf("C16/should-refuse/"+name, "%s was not refused (node now at height %d)", ex.describe, n.Height())
 		}
 		e.checkUnchanged(n, ex.describe, "C16/should-refuse-state/"+name)
+	}
+	// nothing unverified is held, in the pool either: every pooled block acknowledges a momentum of the chain
+	// the node is on now (a block acknowledging an abandoned momentum fails verification on every node)
+	for _, blk := range n.Chain.GetAllUncommittedAccountBlocks() {
+		m, _ := n.Chain.GetFrontierMomentumStore().GetMomentumByHash(blk.MomentumAcknowledged.Hash)
+		if m == nil || m.Height != blk.MomentumAcknowledged.Height {
+			c.Failf("C16/holds-unverified-pool-block/"+name, "after %s the node's pool holds block %v/%d acknowledging momentum %v, which is not on the chain the node is on",
+				ex.describe, blk.Address, blk.Height, blk.MomentumAcknowledged)
+		}
 	}
 	// nothing unverified is held: the resulting chain replays on a fresh node
 	if c.Weighted("replayCheck", 2, 1) == 1 && n.Height() > 1 {
@@ -238,17 +262,23 @@ func TestC16(t *testing.T) {
 		h2 := sim.NewHistOn(c, h.W, e.a2, h)
 		// branch X: the follower's own chain beyond the fork point (depth 0 = no fork)
 		depth := 0
-		switch c.Weighted("depth.kind", 2, 4, 2, 1) {
+		kind := c.Weighted("depth.kind", 2, 4, 2, 3)
+		switch kind {
 		case 1:
 			depth = c.Int("depth.small", 1, 6)
 		case 2:
 			depth = c.Int("depth.mid", 7, 29)
 		case 3:
-			depth = c.Int("depth.edge", 29, 34)
+			// the edge of the window, exactly: 30 is the deepest adoptable fork, 31 the first refused one
+			depth = []int{29, 30, 30, 31, 31, 31, 32}[c.Pick("depth.edge", 7)]
 		}
 		if depth > 0 {
-			grow(c, h, "x", depth, min(depth, 10))
-			// grow produces at least `depth` momentums; use the actual length
+			if kind == 3 {
+				grow(c, h, "x", depth, 0) // exactly `depth` momentums
+			} else {
+				grow(c, h, "x", depth, min(depth, 10))
+				// grow produces at least `depth` momentums; use the actual length
+			}
 		}
 		if h.Dead {
 			c.Excluded("C09-preflight-abort")
@@ -264,6 +294,15 @@ func TestC16(t *testing.T) {
 			}
 		}
 		e.baseDump = b.Dump()
+		// blocks waiting in the producer's pool at this moment: they acknowledge the follower's branch
+		for i, k := 0, c.Int("poolX.transfers", 0, 3); i < k; i++ {
+			h.ActTransfer()
+		}
+		for _, blk := range h.A.Chain.GetAllUncommittedAccountBlocks() {
+			if blk.BlockType != nom.BlockTypeContractSend {
+				e.poolX = append(e.poolX, blk)
+			}
+		}
 		b.Stop()
 		e.tmpl = b
 		view := h.W.CloneStopped(b, "Bview")
@@ -282,7 +321,10 @@ func TestC16(t *testing.T) {
 		}
 		// branch Y
 		if lenX > 0 {
-			lenY := lenX + []int{-1, 0, 1, 3}[c.Pick("leny", 4)]
+			lenY := lenX + []int{-1, 0, 1, 3, 1}[c.Pick("leny", 5)]
+			if kind == 3 && c.Weighted("leny.longer", 1, 2) == 1 {
+				lenY = lenX + 1 + c.Int("leny.more", 0, 2)
+			}
 			if lenY < 1 {
 				lenY = 1
 			}
